@@ -3,7 +3,7 @@ import json, re
 from .. import core
 from . import stackcommon as sc
 
-EMITS = set("S V Q G A P PM R X E B ST CB TXT RACE VR NS STORM STALL".split())
+EMITS = set("S V Q G A P PM R X E B ST CB TXT RACE VR NS STORM STALL PSPLIT".split())
 
 ADV_SETUP = ["wrongcode", "wrongproof", "noproof", "a0", "aN", "a2N", "aempty", "m5first", "start", "m3wrong", "m5zerokey",
              "m5randkey", "badstep", "badmethod", "garbage", "aNforged", "a0forged", "aemptyforged", "wrongcodezero", "m5zeroempty", "m5emptyhkdf"]
@@ -58,6 +58,13 @@ def gen_c01(rng, tier):
                 ops.append("Q:" + a)
         ops += ["L:2.9:true", "W", "ST", "CB", "E:h"] + ["E:" + a for a in adv]
         mk(cases, "adv", ops, {"adv": adv})
+    # a refused request of an unverified connection arrives while a verified controller's subscription request is in flight
+    # (headers received, body not yet): later changes are notified to the controller, never to the unverified connection
+    for _ in range(3 if tier == "quick" else 30):
+        ch = rng.choice(["2.9", "4.9", "4.14"])
+        v = "true" if ch != "4.14" else sc.num(77)
+        ops = ["N:h", "S:h:c0:ok", "V:h:c0:ok", "N:a0", "PSPLIT:h:a0:%s" % ch, "L:%s:%s" % (ch, v), "W", "E:h", "E:a0", "Q:a0", "ST", "CB"]
+        mk(cases, "inflight", ops, {"adv": ["a0"]})
     # a pairing that was used and then removed is not a pairing any more: its controller is an unpaired peer
     for _ in range(4 if tier == "quick" else 40):
         ops = ["N:h", "S:h:c0:ok", "V:h:c0:ok", "R:h:gone:add", "N:g", "V:g:gone:ok", "G:g:2.9", "K:g", "R:h:gone:remove",
@@ -92,6 +99,10 @@ def oracle_c01(c, obs):
         return None        # this host cannot open two connections from one local ip:port
     for op, tok in pairs:
         p = op.split(":")
+        if p[0] == "PSPLIT":
+            if not tok.startswith("PSPLIT=204/470,canary=0"):
+                return "a subscription request in flight while an unverified connection was refused: %s (expected 204 for the controller, 470 without attribute values for the other)" % tok[7:]
+            continue
         if len(p) > 1 and p[1] in adv and p[0] != "NS":
             if "canary=1" in tok:
                 return "a response to the unverified connection %s discloses attribute values (%s -> %s)" % (p[1], op, tok[:80])
